@@ -109,6 +109,16 @@ def step (st : Slots) (op : List String) : Slots × String :=
         (setSlot st d { underlay := a.underlay, overlay := b.overlay, signature := c.signature }, "ok")
       | _, _, _ => (st, "noslot")
     | _, _, _, _ => (st, "bad-op")
+  | ["save2", a, b, nid] | ["par", a, b, nid] =>
+    -- list-of-two / concurrent verification: decided by the Go-side oracle from the per-record verdicts of the
+    -- primitives (the model of one record is `parseAddress`, exercised by parse/ack/save); the state is unchanged
+    match Driver.parseNat a, Driver.parseNat b, Driver.parseNat nid with
+    | some a, some b, some nid =>
+      if nid ≥ 2 ^ 64 then (st, "bad-op") else
+      match st.lookup a, st.lookup b with
+      | some _, some _ => (st, "done")
+      | _, _ => (st, "noslot")
+    | _, _, _ => (st, "bad-op")
   | [what, s, nid] =>
     if what ≠ "parse" ∧ what ≠ "ack" ∧ what ≠ "save" then (st, "bad-op") else
     match Driver.parseNat s, Driver.parseNat nid with
